@@ -719,6 +719,18 @@ impl SiteSink for CfgSink {
     }
 
     fn mac(&mut self, ctx: &Ctx, m: &syn::Macro) {
+        let mname = path_to_string(&m.path);
+        if matches!(mname.as_str(), "debug_assert" | "debug_assert_eq" | "debug_assert_ne") {
+            // evaluated in builds with debug assertions only: its argument (and any side effect in it) exists in those builds alone
+            self.cfgs.push((
+                ctx.file.clone(),
+                ctx.fn_name(),
+                format!("debug_assertions /* {}!({}) */", mname, truncate_chars(&compact(&m.tokens.to_string()), 80)),
+                "debug_assert".into(),
+                line_of(m),
+            ));
+            return;
+        }
         if path_to_string(&m.path) == "cfg" {
             match parse_pred_tokens(m.tokens.clone()) {
                 Ok(p) => self
